@@ -12,6 +12,7 @@ import (
 	"github.com/feichai0017/NoKV/manifest"
 	"github.com/feichai0017/NoKV/metrics"
 	"github.com/feichai0017/NoKV/utils"
+	"github.com/feichai0017/NoKV/utils/verifhook"
 	vlogpkg "github.com/feichai0017/NoKV/vlog"
 	"github.com/pkg/errors"
 )
@@ -233,6 +234,7 @@ func (vlog *valueLog) removeValueLogFile(bucket uint32, fid uint32) error {
 	if err := vlog.db.lsm.LogValueLogDelete(bucket, fid); err != nil {
 		return errors.Wrapf(err, "log value log delete fid %d (bucket %d)", fid, bucket)
 	}
+	verifhook.Point("vlog.remove.manifestLogged")
 	if err := mgr.Remove(fid); err != nil {
 		if hasMeta {
 			if errRestore := vlog.db.lsm.LogValueLogUpdate(&meta); errRestore != nil {
